@@ -7,7 +7,8 @@
     0 <= m < 12 (January = 0, number_from_month = m + 1); trapping operations live in [R]
     ([Val] / [Panic]), so every equation [f x = Val y] below also says that f does not panic. *)
 From Coq Require Import ZArith List Bool String.
-From V Require Import Base.Int Base.IO Gen.WdMo Model.ScanNames Model.C19 Proofs.C19.
+From V Require Import Base.Int Base.IO Gen.WdMo Model.ScanNames Model.C19 Proofs.C19 Proofs.C19Ops Proofs.C19Holds.
+From V Require Judge.C19.
 Import ListNotations.
 Open Scope Z_scope.
 
@@ -241,6 +242,37 @@ Theorem C19_iter_fused : forall sched1 sched2 s start, wset s -> wd start ->
                List.length res1 = List.length sched1.
 Proof. exact iter_fused. Qed.
 Print Assumptions C19_iter_fused.
+
+(** ** Month: pred cycle, names, order *)
+Theorem C19_mo_pred_iter : forall k m, mo m -> iterR k mo_pred m = Val ((m - Z.of_nat k) mod 12).
+Proof. exact mo_pred_iter. Qed.
+Print Assumptions C19_mo_pred_iter.
+(* Month::name is the English full name (the independent list of Judge/C19.v) *)
+Theorem C19_mo_name : forall m, mo m -> mo_name m = Val (nth (Z.to_nat m) Judge.C19.month_names []).
+Proof. exact mo_name_spec. Qed.
+Print Assumptions C19_mo_name.
+(* derived Ord of Month is the order of the month numbers *)
+Theorem C19_mo_cmp : forall a b, mo a -> mo b ->
+  exists na nb, mo_number_from_month a = Val na /\ mo_number_from_month b = Val nb /\ mo_cmp a b = cmpZ na nb.
+Proof. exact mo_cmp_numbers. Qed.
+Print Assumptions C19_mo_cmp.
+
+(** ** the property as the independent judge states it (Judge/C19.v: Z/7, Z/12, the English names,
+    subsets of {0..6}; imports nothing of the model) holds of the model on EVERY case line of all 61
+    ops (Weekday, Month, WeekdaySet, the iterator with any schedule, the provided adaptors of op
+    ws.adapt): whenever the judge has an opinion it accepts the model's output.  [str_args_ok]: the
+    string arguments are byte strings (0 <= c < 256), which is what the case protocol carries; it is
+    used by the two parsers only.  Finite domains are swept by the kernel on judge-of-run itself; the
+    24 numeric conversions (all integers of the type), the parsers (all strings), the collectors (all
+    lists) and the iterator (all schedules) are proved from the theorems above. *)
+Theorem C19_holds : forall op args, str_args_ok args ->
+  Judge.C19.judge op args (run op args) <> JSkip -> Judge.C19.judge op args (run op args) = JOk.
+Proof. exact C19_holds. Qed.
+Print Assumptions C19_holds.
+Example C19_str_args_ok_inhabited : str_args_ok [VStr (B"wEdNeSdAy")] /\
+  Judge.C19.judge (B"wd.parse") [VStr (B"wEdNeSdAy")] (run (B"wd.parse") [VStr (B"wEdNeSdAy")]) = JOk.
+Proof. exact str_args_example. Qed.
+Print Assumptions C19_str_args_ok_inhabited.
 
 (** ** the hypotheses are inhabited by non-trivial values *)
 Example C19_ex_values : wd 6 /\ mo 11 /\ wset 85 /\ members 85 = [0; 2; 4; 6] /\ cyc_members 85 3 = [4; 6; 0; 2] /\
